@@ -297,7 +297,7 @@ Enabled(s, a) ==
   CASE a[1] = "add"    -> "api" \in Feat /\ a[2] \in FreshNodes(s) /\ IsDir(s, a[3])
     [] a[1] = "rm"     -> "api" \in Feat /\ s.node[a[2]].st # "free" /\ a[2] # Root
     [] a[1] = "rename" -> "api" \in Feat /\ Linked(s, a[2]) /\ s.node[a[2]].name # a[3]
-    [] a[1] = "find"   -> "api" \in Feat /\ IsDir(s, a[2])
+    [] a[1] = "find"   -> "find" \in Feat /\ IsDir(s, a[2])
     [] a[1] = "chmod"  -> "perm" \in Feat /\ s.node[a[2]].st = "in" /\ s.node[a[2]].mode # a[3]
     [] a[1] = "checkperm" -> "perm" \in Feat /\ s.node[a[2]].st = "in"
     [] a[1] = "attach" -> ~Valid(s, a[2])
@@ -350,10 +350,13 @@ Do(a) == /\ Enabled(st, a)
          /\ last' = a
 
 DoRead(f, r, c) == Do(<<"dread", f, r, c>>)
-DC(f, r) == IF Valid(st, f) /\ st.node[st.fid[f].n].dir THEN DCounts(st, f, r) ELSE {}
+(* every count DCounts can ask for, as a constant set (TLC's edge labels carry the arguments only of
+   actions quantified directly under Next) *)
+DCountSet == {1, 200, 4000} \cup {StatSize(x) + d : x \in Names, d \in {0, 1}}
+             \cup {StatSize(x) + StatSize(y) - d : x \in Names, y \in Names, d \in {0, 1}}
 
 Next == \/ \E a \in Acts : Do(a)
-        \/ \E f \in Fids, r \in BOOLEAN : \E c \in DC(f, r) : DoRead(f, r, c)
+        \/ \E f \in Fids, r \in BOOLEAN, c \in DCountSet : DoRead(f, r, c)
 Spec == Init /\ [][Next]_vars
 
 (* ---------------------------------------------------------------- properties of the machine *)
